@@ -657,6 +657,18 @@ func Subst(t *Term, args []*Term) *Term {
 	if len(t.Args) == 0 {
 		return t
 	}
+	if t.Op == OBin && (t.Str == "==" || t.Str == "!=") && len(t.Args) == 2 {
+		// an interface parameter compared with nil, the parameter bound to a value of a concrete type: the
+		// interface that carries it is not nil (see Builder.term)
+		for i := 0; i < 2; i++ {
+			p, n := t.Args[i], t.Args[1-i]
+			if p.Op == OParam && p.Typ != nil && types.IsInterface(p.Typ) && isNilTerm(n) && p.N < len(args) && args[p.N] != nil {
+				if tt := TermType(args[p.N]); tt != nil && !types.IsInterface(tt) {
+					return Const(constant.MakeBool(t.Str == "!="), types.Typ[types.Bool])
+				}
+			}
+		}
+	}
 	nargs := make([]*Term, len(t.Args))
 	changed := false
 	for i, a := range t.Args {
